@@ -20,11 +20,12 @@ Definition same_meaning (extras : bool) (G G' : grammar) : Prop :=
   forall uprop w a emit e p sg r, valid_utf8 w -> Forall valid_utf8 (estrs e) -> boundaryb w p = true -> Forall valid_utf8 sg ->
     (evaluates G' extras uprop w a emit e p sg r <-> evaluates G extras uprop w a emit e p sg r).
 
-(* pass k (0 rotate, 1 skip, 2 unroll, 3 concatenate, 4 factor, 5 list) applied to every rule, as verif_apply_pass does *)
+(* pass k (0 rotate, 1 skip, 2 unroll, 3 concatenate, 4 factor, 5 list) applied to every rule, as verif_apply_pass does;
+   ovf selects the unroller's range arithmetic (before / after the fix of the u32 overflow), see Opt/Unroll.v *)
 Definition pass_preserves (extras : bool) (k : nat) (G : grammar) : Prop :=
-  forall G', apply_pass extras k G = Some G' -> same_meaning extras G G'.
+  forall ovf G', apply_pass ovf extras k G = Some G' -> same_meaning extras G G'.
 Definition pipeline_preserves (extras : bool) (G : grammar) : Prop :=
-  forall G', optimize_ast extras G = Some G' -> same_meaning extras G G'.
+  forall ovf G', optimize_ast ovf extras G = Some G' -> same_meaning extras G G'.
 
 (* ---------- restore_on_err: operational (Layer B/C) ---------- *)
 (* the sub-expressions whose failure is followed by something else being tried from the state they leave:
